@@ -29,6 +29,7 @@ struct GenCfg {
   int maxLevels = 8;
   int maxMagPow = 22;  // coordinates stay within 2^maxMagPow when scaled
   bool wideRows = false;  // rows thousands of row heights wide (many density bins)
+  bool large = false;     // hundreds to 1500 movable cells on 10-40 row levels (rare in thorough, always in the exploratory tier 2)
 };
 
 // Swarm configuration: each run first decides which features exist at all.
@@ -66,6 +67,15 @@ GenCfg swarm(Rng &r, int tier) {
     c.fixedZero = false;
     c.turned = false;
   }
+  // large instances: drawn from a forked stream so that the other choices of a seed do not move
+  Rng rl = r.fork("large");
+  c.large = tier >= 2 || (tier == 1 && rl.chance(0.004));
+  if (c.large) {
+    c.wideRows = false;
+    c.bigScale = false;
+    c.maxCells = (int)rl.range(200, 1500);
+    c.maxLevels = (int)rl.range(10, 40);
+  }
   return c;
 }
 
@@ -98,6 +108,10 @@ Built genCircuit(Rng &r, const GenCfg &cfg) {
   int minSeg = cfg.c06Domain ? 4 * Hb : 1;
   long long Wb = std::max<long long>(minSeg, (long long)Hb * r.range(4, 28) + r.range(0, Hb));
   if (cfg.wideRows) Wb = (long long)Hb * r.range(200, 1500);
+  if (cfg.large) {
+    nL = std::max(nL, cfg.maxLevels / 2);
+    Wb = (long long)Hb * r.range(40, 150);
+  }
   long long ox = r.range(-40, 40) * Hb, oy = r.range(-40, 40) * Hb;
   if (r.chance(0.3)) {
     ox = 0;
@@ -589,6 +603,15 @@ void tame(Plan &p, const GenCfg &cfg) {
         if (kv.first == "rl.diagReoptSize" && kv.second > 3) { kv.second = 3; }
         if (kv.first == "rl.diagReoptOverlap") kv.second = std::min(kv.second, 1.0);
       }
+    }
+    if (cfg.large) {
+      bool f = false;
+      for (auto &kv : op.params.ov)
+        if (kv.first == "g.maxNbSteps") {
+          kv.second = std::min(kv.second, 12.0);
+          f = true;
+        }
+      if (!f) op.params.ov.emplace_back("g.maxNbSteps", 12.0);
     }
     if (!cfg.wideRows) continue;
     bool found = false;
